@@ -42,8 +42,11 @@ def gen(rng, broker, tier):
                 "timeout_us": rng.choice([20_000, 200_000, 1_000_000]),
                 # "x+finish:k": the holder's terminal call and its consumer's finish() overlap, the second one starting k loop
                 # steps after the first (k < 0: finish() first) - what a stopping worker does
+                # ("reject+reject" only where the broker keeps per-delivery state - Redis' _reject_to marker, RabbitMQ's
+                # delivery tags; the in-memory reject finds a message by id alone, which is the root of the known finding)
                 "actions": [rng.choice(["ack", "ack", "ack", "reject", "requeue", "restart", "reject+finish",
-                                        f"reject+finish:{rng.randint(-4, 4)}", f"ack+finish:{rng.randint(-4, 4)}"])
+                                        f"reject+finish:{rng.randint(-4, 4)}", f"ack+finish:{rng.randint(-4, 4)}"]
+                                       + ([f"reject+reject:{rng.randint(0, 4)}"] if broker != "mem" else []))
                             for _ in range(rng.randint(3, 25))],
                 "start_us": rng.choice([0, 0, 1000, 50_000]),
             })
@@ -125,6 +128,16 @@ async def _main_consumers(sim, sc, out):
                 await asyncio.gather(mb.reject(key), cons.finish())
                 cons = mb.get_consumer("q", None, None)
                 await cons.start()
+            elif act.startswith("reject+reject:"):
+                # the holder gives the same delivery back twice (e.g. its own reject and a clean-up path): the second one
+                # has nothing to return
+                k = int(act.split(":")[1])
+                t1 = asyncio.ensure_future(mb.reject(key))
+                for _ in range(k):
+                    await asyncio.sleep(0)
+                # (the second call starts while the first is still on the wire: nobody else can have taken the message in
+                # between - a reject issued after the message went to another holder would be that holder's loss on every broker)
+                await asyncio.gather(t1, mb.reject(key))
             elif "+finish:" in act:
                 first, k = act.split("+")[0], int(act.split(":")[1])
                 if k >= 0:
@@ -136,6 +149,12 @@ async def _main_consumers(sim, sc, out):
                     t2 = asyncio.ensure_future(cons.finish())
                     for _ in range(-k):
                         await asyncio.sleep(0)
+                    if t2.done():
+                        # finish() has already returned the message: whoever got it since is its holder now, and a
+                        # terminal call of ours would be that holder's loss on every broker - a well-behaved client stops here
+                        cons = mb.get_consumer("q", None, None)
+                        await cons.start()
+                        continue
                     t1 = asyncio.ensure_future(getattr(mb, first)(key))
                 await asyncio.gather(t1, t2)
                 if first == "ack":
@@ -209,7 +228,19 @@ def _ownership_oracle(rec, ids, V, b, out):
                 continue
             if e.id in gone:
                 if e.id not in tainted:  # a message that already exists twice is reported once
-                    V.append(violation("delivered-after-ack", f"C14/{b}/delivered-after-ack", id=e.id, to=e.who))
+                    acker_deliv = deliver_of.get(e.id)
+                    stolen = b == "mem" and acker_deliv is not None and any(
+                        r.op == "reject" and r.id == e.id and r.outcome == "returned" and r.seq < acker_deliv.end_seq < r.end_seq
+                        for r in rejects)
+                    if stolen:
+                        # the known finding seen from the acker's side: a previous holder's reject was in flight when the
+                        # acker received the message, took it away from the acker (whose ack then found nothing) and put it
+                        # back - it is delivered again before that reject has even returned
+                        V.append(violation("double-delivery", f"C14/{b}/double-delivery/late-reject-after-own-finish-took-it-from-new-holder",
+                                           id=e.id, holder=acker_deliv.who))
+                        tainted.add(e.id)
+                    else:
+                        V.append(violation("delivered-after-ack", f"C14/{b}/delivered-after-ack", id=e.id, to=e.who))
                 continue
             h = holder.get(e.id)
             if h is not None:
